@@ -127,7 +127,7 @@ def gen_workflow(rng, max_nodes=6, speeds=(10,), allow_zero=True, shape=None):
 
 
 def gen_spec(rng, pairing=None, small=False, allow_tiering=False,
-             force_feasible=True, timestep=None):
+             force_feasible=True, timestep=None, allow_k4=False):
     """A random mostly-valid configuration.  Volumes are kept below the 0.6
     tiering threshold unless allow_tiering."""
     nm = rng.randint(1, 3 if small else 6)
@@ -177,7 +177,7 @@ def gen_spec(rng, pairing=None, small=False, allow_tiering=False,
     }
     pairing = pairing or rng.choice(["batch", "queue", "dynamic", "greedy"])
     if pairing == "batch":
-        parts = rng.randint(1, 3)
+        parts = rng.randint(1, min(3, nm))
         mn = rng.randint(1, max(1, nm // parts))
         sched = {"kind": "batch", "partitions": parts, "min": mn, "split": None}
         if rng.random() < 0.25:
@@ -206,6 +206,12 @@ def gen_spec(rng, pairing=None, small=False, allow_tiering=False,
         spec["delay"] = None
     if timestep:
         spec["timestep"] = timestep
+    if spec["delay"] and "prob" in spec["delay"] and not allow_k4:
+        # K4 (known finding): DelayModel('normal') indexes an empty array for a
+        # runtime of 0; keep every runtime >= 1 on every machine in this stream
+        for o in obs:
+            for nd in o["workflow"]["nodes"]:
+                nd["comp"] = max(nd["comp"], max(speeds))
     return spec
 
 
@@ -226,3 +232,63 @@ def spec_features(spec):
         "delay": ("none" if not spec.get("delay") else
                   ("script" if "script_seed" in spec["delay"] else "model")),
     }
+
+
+def feasible(spec):
+    """C05's premise: each observation fits the telescope, the ingest-machine
+    limit, the cluster and both buffers on its own (and, for batch scheduling,
+    the configured minimum reservation fits one partition)."""
+    nm = len(spec["machines"])
+    for o in spec["observations"]:
+        vol = o["rate"] * o["duration"]
+        if o["demand"] > spec["total_arrays"]:
+            return False
+        if o["ingest_demand"] > min(spec["max_ingest"], nm) or o["ingest_demand"] < 1:
+            return False
+        if o["rate"] > spec["hot"]["rate"]:
+            return False
+        if vol >= spec["hot"]["capacity"] or vol > spec["cold"]["capacity"]:
+            return False
+        if o["duration"] < 1:
+            return False
+    s = spec["scheduling"]
+    if s["kind"] == "batch":
+        if s.get("split"):
+            for o in spec["observations"]:
+                lo, hi = s["split"][o["name"]]
+                if lo > nm or lo > hi or hi < s.get("min", 1) or lo < 1:
+                    return False
+        else:
+            if nm // s.get("partitions", 1) < max(1, s.get("min", 1)):
+                return False
+    return True
+
+
+def no_tiering(spec):
+    """Total data volume stays at or below the 0.6 tiering threshold."""
+    tot = sum(o["rate"] * o["duration"] for o in spec["observations"])
+    return 5 * tot <= 3 * spec["hot"]["capacity"]
+
+
+def serial_bound(spec):
+    """The analytic serial bound of C05 (in timesteps)."""
+    import math
+    c = 3
+    slow_cpu = min(m["flops"] for m in spec["machines"])
+    slow_bw = min(m["bw"] for m in spec["machines"])
+    rate = min(spec["hot"]["rate"], spec["cold"]["rate"])
+    b = max(o["start"] for o in spec["observations"])
+    dmax = 0
+    d = spec.get("delay")
+    for o in spec["observations"]:
+        vol = o["rate"] * o["duration"]
+        b += o["duration"] + 2 * math.ceil(vol / rate) + c
+        for n in o["workflow"]["nodes"]:
+            rt = max(n["comp"] // slow_cpu, n.get("task_data", 0) // slow_bw)
+            if d and "prob" in d:
+                rt = rt * 5 + 5          # normal(mu, <=0.75 mu) sample above the mean: far below 5x
+            elif d:
+                rt = rt + d.get("max", 4)
+            io = max([e[2] for e in o["workflow"]["edges"] if e[1] == n["id"]] + [0])
+            b += max(1, rt) + math.ceil(io / slow_bw) + c
+    return b
